@@ -201,7 +201,7 @@ static CaseD gen_case(vfh::Rng &r, const std::string &fmt, int maxbeads, int max
     c.tag = "wide-coordinates";
     L.pos_hi = 900; L.pos_lo = -99;
   }
-  bool awkward = fmt != "xyz" && minimal < 0 && r.coin(0.25);
+  bool awkward = fmt != "xyz" && (minimal < 0 ? r.coin(0.25) : minimal % 5 == 3);
   double dt = awkward ? r.logu(1e-3, 1.0) : nice[r.range(0, 7)];
   if (awkward) c.tag = "unrounded-dt";
   c.dt = dt;
@@ -681,7 +681,13 @@ static void roundtrip(const CaseD &c, const std::string &file, const std::string
     reread = false;
     msg = e.what();
   }
-  std::string rkey = fmt + "/reread-rejected" + ((((fmt == "dlpoly" && !config) || fmt == "xyz") && !c.tag.empty()) ? "-" + c.tag : "");
+  // sub-family keys: DL_POLY HISTORY with an unrounded MD time step; xyz files
+  // whose %10.5f fields actually run together (file-level observation)
+  int xyz_runtogether = 0;
+  if (fmt == "xyz") for (auto &F : parse_xyz(file)) xyz_runtogether += F.malformed;
+  std::string rkey = fmt + "/reread-rejected";
+  if (fmt == "dlpoly" && !config && !c.tag.empty()) rkey += "-" + c.tag;
+  if (fmt == "xyz" && xyz_runtogether > 0) rkey += "-wide-coordinates";
   judge(fmt, "reread", reread, rkey, "the matching reader throws on the file its own writer produced",
         case_json(c, 1).s("exception", msg).s("file_head", slurp(file, 1500)));
   if (fmt == "xyz") {
